@@ -1,47 +1,202 @@
 (* Proofs/NumSetProofs.v — proofs for C15 about Model/NumSet.v. *)
 From Coq Require Import Sorting.Sorted.
+From Coq Require Import ZifyN ZifyNat ZifyBool.
 From GoImap.Base Require Import Bytes.
 From GoImap.Model Require Import NumSet.
-From GoImap.Proofs Require Import NumSetSpec.
+From GoImap.Proofs Require Import NumSetSpec NumSetLemmas NumSetInsert NumSetText.
 Open Scope N_scope.
+Local Opaque canon.
+
+(* ------------------------------------------------------------------ *)
+(* operations *)
+Lemma wf_single : forall q, q < M32 -> wf_range (q, q) = true.
+Proof. intros q Hq. rg_unfold. lia. Qed.
+
+Lemma add_set_spec : forall t s, forallb wf_range t = true -> canon s = true ->
+  exists s', add_set s t = Some s' /\ canon s' = true /\
+    forall q, q < M32 -> den s' q = den s q || den t q.
+Proof.
+  induction t as [|v t IH]; intros s Ht Hc.
+  - exists s. cbn [add_set]. split; [reflexivity|]. split; [exact Hc|].
+    intros q _. rewrite den_nil, orb_false_r. reflexivity.
+  - cbn [forallb] in Ht. apply andb_true_iff in Ht as [Hv Ht].
+    destruct (insert_spec s v Hv Hc) as (s1 & E1 & Hc1 & Hd1).
+    destruct (IH s1 Ht Hc1) as (s2 & E2 & Hc2 & Hd2).
+    exists s2. cbn [add_set]. rewrite E1. split; [exact E2|]. split; [exact Hc2|].
+    intros q Hq. rewrite (Hd2 q Hq), (Hd1 q Hq), den_cons, orb_assoc. reflexivity.
+Qed.
+
+Lemma apply_op_spec : forall o s, wf_op o = true -> canon s = true ->
+  exists s', apply_op (Some s) o = Some s' /\ canon s' = true /\
+    forall q, q < M32 -> den s' q = den s q || op_den o q.
+Proof.
+  intros [x|a b|t] s Ho Hc; cbn [apply_op op_den wf_op] in *.
+  - apply N.ltb_lt in Ho. exact (insert_spec s (x, x) (wf_single x Ho) Hc).
+  - apply andb_true_iff in Ho as [Ha Hb]. apply N.ltb_lt in Ha. apply N.ltb_lt in Hb.
+    exact (insert_spec s (norm_range a b) (wf_norm_range a b Ha Hb) Hc).
+  - exact (add_set_spec t s Ho Hc).
+Qed.
+
+Lemma fold_ops_spec : forall ops s0, forallb wf_op ops = true -> canon s0 = true ->
+  exists s, fold_left apply_op ops (Some s0) = Some s /\ canon s = true /\
+    forall q, q < M32 -> den s q = den s0 q || existsb (fun o => op_den o q) ops.
+Proof.
+  induction ops as [|o ops IH]; intros s0 Hw Hc.
+  - exists s0. split; [reflexivity|]. split; [exact Hc|].
+    intros q _. cbn [existsb]. rewrite orb_false_r. reflexivity.
+  - cbn [forallb] in Hw. apply andb_true_iff in Hw as [Ho Hw].
+    destruct (apply_op_spec o s0 Ho Hc) as (s1 & E1 & Hc1 & Hd1).
+    destruct (IH s1 Hw Hc1) as (s2 & E2 & Hc2 & Hd2).
+    exists s2. cbn [fold_left]. rewrite E1. split; [exact E2|]. split; [exact Hc2|].
+    intros q Hq. rewrite (Hd2 q Hq), (Hd1 q Hq). cbn [existsb]. rewrite orb_assoc. reflexivity.
+Qed.
 
 (* every reachable set: no crash, canonical form *)
 Lemma ops_canon : forall ops, forallb wf_op ops = true ->
   exists s, run_ops ops = Some s /\ canon s = true.
-Admitted.
+Proof.
+  intros ops Hw. destruct (fold_ops_spec ops [] Hw canon_nil) as (s & E & Hc & _).
+  exists s. split; [exact E|exact Hc].
+Qed.
 
 (* membership = union of what was inserted, for every probe (0 = "*") *)
 Lemma ops_den : forall ops s q, forallb wf_op ops = true -> run_ops ops = Some s -> q < M32 ->
   den s q = existsb (fun o => op_den o q) ops.
-Admitted.
+Proof.
+  intros ops s q Hw Hr Hq. destruct (fold_ops_spec ops [] Hw canon_nil) as (s' & E & _ & Hd).
+  assert (E' : Some s' = Some s) by (transitivity (run_ops ops); [symmetry; exact E|exact Hr]).
+  inversion E'; subst s'.
+  rewrite (Hd q Hq), den_nil. reflexivity.
+Qed.
 
 (* the binary search agrees with the denotation *)
 Lemma contains_spec : forall s q, canon s = true -> q < M32 ->
   contains s q = Some (den s q && negb (q =? 0)).
-Admitted.
+Proof.
+  intros s q Hc Hq. unfold contains. rewrite (search_spec s q Hc).
+  destruct (N.eq_dec q 0) as [->|Hq0].
+  - cbn [N.eqb negb]. rewrite !andb_false_r. reflexivity.
+  - rewrite (den_ff s q Hc Hq0 Hq). reflexivity.
+Qed.
+
+Lemma rden_zero : forall r, rden r 0 = (snd r =? 0).
+Proof. intros [a b]. reflexivity. Qed.
+
+Lemma dynamic_cons2 : forall r r' l, dynamic (r :: r' :: l) = dynamic (r' :: l).
+Proof.
+  intros r r' l. unfold dynamic. cbn [rev]. destruct (rev l) as [|x y]; reflexivity.
+Qed.
+
+Lemma dynamic_single : forall r, dynamic [r] = (snd r =? 0).
+Proof. intros [a b]. reflexivity. Qed.
 
 Lemma dynamic_iff : forall s, canon s = true -> dynamic s = den s 0.
-Admitted.
+Proof.
+  induction s as [|r s IH]; intros Hc; [reflexivity|].
+  destruct s as [|r' l].
+  - rewrite dynamic_single, den_cons, den_nil, rden_zero, orb_false_r. reflexivity.
+  - rewrite dynamic_cons2, (IH (canon_tail _ _ Hc)), (den_cons r), rden_zero.
+    pose proof (canon_okhd _ _ Hc) as Hl. cbn [okhd] in Hl. unfold linka in Hl.
+    apply andb_true_iff in Hl as [Hl _]. apply negb_true_iff in Hl. rewrite Hl. reflexivity.
+Qed.
+
+(* ------------------------------------------------------------------ *)
+(* nums *)
+Lemma nums_range_In : forall a b q, In q (nums_range a b) <-> a <= q /\ q < b + 1.
+Proof.
+  intros a b q. unfold nums_range. rewrite in_map_iff. split.
+  - intros (i & Hi & Hin). apply in_seq in Hin. lia.
+  - intros H. exists (N.to_nat (q - a)). split; [lia|]. apply in_seq. lia.
+Qed.
+
+Lemma map_seq_sorted : forall a n s,
+  StronglySorted N.lt (map (fun i => a + N.of_nat i) (seq s n)).
+Proof.
+  induction n as [|n IH]; intros s; cbn [seq map]; constructor.
+  - apply IH.
+  - apply Forall_forall. intros x Hx. apply in_map_iff in Hx as (i & Hi & Hin).
+    apply in_seq in Hin. lia.
+Qed.
+
+Lemma sorted_app : forall l1 l2 : list N, StronglySorted N.lt l1 -> StronglySorted N.lt l2 ->
+  (forall x y, In x l1 -> In y l2 -> x < y) -> StronglySorted N.lt (l1 ++ l2).
+Proof.
+  induction l1 as [|x l1 IH]; intros l2 H1 H2 H; [exact H2|].
+  cbn [app]. inversion H1 as [|? ? Hs Hf]; subst. constructor.
+  - apply IH; auto. intros x' y Hx Hy. apply H; [right; exact Hx|exact Hy].
+  - apply Forall_app. split; [exact Hf|].
+    apply Forall_forall. intros y Hy. apply H; [left; reflexivity|exact Hy].
+Qed.
+
+Lemma nums_spec : forall s, canon s = true -> dynamic s = false ->
+  exists l, nums s = NumsOk l /\ StronglySorted N.lt l /\
+            forall q, In q l <-> (q <> 0 /\ den s q = true).
+Proof.
+  induction s as [|[a b] s IH]; intros Hc Hd.
+  - exists []. split; [reflexivity|]. split; [constructor|].
+    intros q. rewrite den_nil. split; [intros []|intros [_ H]; discriminate H].
+  - pose proof (canon_tail _ _ Hc) as Hc'. pose proof (canon_hd _ _ Hc) as Hw.
+    rewrite (dynamic_iff _ Hc), den_cons, rden_zero in Hd. cbn [snd] in Hd.
+    apply orb_false_iff in Hd as [Hb Hd']. rewrite <- (dynamic_iff _ Hc') in Hd'.
+    destruct (IH Hc' Hd') as (l & Hn & Hs & Hin).
+    assert (Hab : a <> 0 /\ a <= b /\ b <> 0) by (rg_unfold; lia).
+    exists (nums_range a b ++ l). cbn [nums]. rewrite Hn.
+    replace ((a =? 0) || (b =? 0)) with false by lia.
+    split; [reflexivity|]. split.
+    + apply sorted_app; [apply map_seq_sorted|exact Hs|].
+      intros x y Hx Hy. apply nums_range_In in Hx. apply Hin in Hy as [Hy0 Hy].
+      unfold den in Hy. apply existsb_exists in Hy as (r & Hr & Hy).
+      destruct (canon_In s (a, b) r Hc Hr) as [Hwr Hl].
+      destruct r as [ra rb]. rg_unfold. destruct (y =? 0) eqn:E0; lia.
+    + intros q. rewrite in_app_iff, nums_range_In, Hin, den_cons, orb_true_iff.
+      assert (Hq : (a <= q /\ q < b + 1) <-> (q <> 0 /\ rden (a, b) q = true)).
+      { rg_unfold. destruct (q =? 0) eqn:E0; lia. }
+      tauto.
+Qed.
+
+Lemma nums_dynamic : forall s, canon s = true -> dynamic s = true -> nums s = NumsNotStatic.
+Proof.
+  induction s as [|[a b] s IH]; intros Hc Hd; [discriminate Hd|].
+  destruct s as [|r' l].
+  - rewrite dynamic_single in Hd. cbn [snd] in Hd. cbn [nums]. rewrite Hd, orb_true_r. reflexivity.
+  - rewrite dynamic_cons2 in Hd.
+    change (nums ((a, b) :: r' :: l)) with
+      (if (a =? 0) || (b =? 0) then NumsNotStatic
+       else match nums (r' :: l) with
+            | NumsOk l0 => NumsOk (nums_range a b ++ l0)
+            | NumsNotStatic => NumsNotStatic
+            end).
+    rewrite (IH (canon_tail _ _ Hc) Hd). destruct ((a =? 0) || (b =? 0)); reflexivity.
+Qed.
 
 (* text form parses back to an equal set *)
 Lemma string_parse : forall s, canon s = true -> s <> [] ->
   parse_set (to_string s) = Some (Some s).
-Admitted.
+Proof.
+  intros s Hc Hne.
+  rewrite (parse_set_g (to_string s) s (to_string_g s (fun r => canon_wf s r Hc) Hne)).
+  rewrite (add_set_canon s [] Hc). reflexivity.
+Qed.
 
 (* the parser accepts exactly the RFC grammar, and the result has the written members *)
 Lemma parse_accepts_grammar : forall t rs, g_set t rs ->
   exists s, parse_set t = Some (Some s) /\ canon s = true /\
             forall q, q < M32 -> den s q = existsb (fun r => rden r q) rs.
-Admitted.
+Proof.
+  intros t rs H. rewrite (parse_set_g t rs H).
+  destruct (add_set_spec rs [] (g_set_wf t rs H) canon_nil) as (s & E & Hc & Hd).
+  exists s. rewrite E. split; [reflexivity|]. split; [exact Hc|].
+  intros q Hq. rewrite (Hd q Hq), den_nil. reflexivity.
+Qed.
 
 Lemma parse_only_grammar : forall t r, parse_set t = Some r -> exists rs, g_set t rs.
-Admitted.
-
-(* enumeration of a static set: exactly the members, ascending, also at 2^32-1 *)
-Lemma nums_spec : forall s, canon s = true -> dynamic s = false ->
-  exists l, nums s = NumsOk l /\ StronglySorted N.lt l /\
-            forall q, In q l <-> (q <> 0 /\ den s q = true).
-Admitted.
-
-Lemma nums_dynamic : forall s, canon s = true -> dynamic s = true -> nums s = NumsNotStatic.
-Admitted.
+Proof.
+  intros t r H. unfold parse_set, split_byte in H.
+  pose proof (parse_fields_only _ [] r canon_nil H) as Hf.
+  destruct (split_on_nonnil (ch ",") t []) as (h & tl & Hs).
+  destruct (g_set_join (ch ",") (split_on (ch ",") [] t)) as (rs & Hrs).
+  - rewrite Hs. discriminate.
+  - reflexivity.
+  - exact Hf.
+  - rewrite join_split in Hrs. exists rs. exact Hrs.
+Qed.
